@@ -392,6 +392,19 @@ def scenario(name):
             x = fam["total-charge"]
             xc = x.conj()
             return [lambda: sr.tensordot(xc, x, 3), lambda: x.fuse((2, 0), (1,))], [x, xc]
+    elif name == "fuse||fuse different arrays, same directions":
+        def make(maxsize=8192):
+            fresh(maxsize)
+            fam = build()
+            x, y = fam["missing"], fam["size"]
+            return [lambda: x.fuse((0, 1), (2,)), lambda: y.fuse((0, 1), (2,))], [x, y]
+    elif name == "tensordot||tensordot different arrays, same directions":
+        def make(maxsize=0):
+            fresh(maxsize)
+            fam = build()
+            x, y = fam["base"], fam["size"]
+            xc, yc = x.conj(), y.conj()
+            return [lambda: sr.tensordot(x, xc, ((0, 1), (0, 1)), mode="fused"), lambda: sr.tensordot(y, yc, ((0, 1), (0, 1)), mode="fused")], [x, y, xc, yc]
     elif name == "eigh||tensordot (fermionic, lazy signs)":
         def make(maxsize=8192):
             fresh(maxsize)
@@ -416,6 +429,8 @@ SCENARIOS = [
     "conj||transpose (fermionic, lazy signs)",
     "fermionic tensordot||fuse",
     "eigh||tensordot (fermionic, lazy signs)",
+    "fuse||fuse different arrays, same directions",
+    "tensordot||tensordot different arrays, same directions",
 ]
 
 
